@@ -63,7 +63,8 @@ pub fn corpus(rng: &mut Rng) -> Vec<StructureTag> {
 pub fn encode_with(t: &StructureTag, rng: &mut Rng, nonmin: bool) -> Vec<u8> {
     let mut out = vec![];
     let mut r2 = Rng::new(rng.next());
-    ownber::write(t, &mut out, &mut |_n| if nonmin && r2.chance(1, 4) { 1 + r2.below(3) as usize } else { 0 });
+    // legal long forms: 1..3 extra leading zero octets mostly, sometimes enough to pass 8 length octets in all (9, 12) or to reach the maximum of 126
+    ownber::write(t, &mut out, &mut |_n| if nonmin && r2.chance(1, 4) { if r2.chance(1, 6) { *r2.pick(&[6usize, 7, 8, 9, 12, 40, 118]) } else { 1 + r2.below(3) as usize } } else { 0 });
     out
 }
 
